@@ -27,8 +27,8 @@ def peel(n):
                                              "as_mut", "borrow", "as_slice", "cloned", "copied", "iter",
                                              "into_iter") and not n.get("args"):
             n = n["recv"]
-        elif k == "mcall" and n.get("m") in ("map_err", "context", "with_context"):
-            n = n["recv"]         # only the error is rewritten
+        elif k == "mcall" and n.get("m") in ("map_err", "context", "with_context", "ok_or", "ok_or_else"):
+            n = n["recv"]         # only the error is rewritten / supplied: the payload is the same
         elif k == "block" and not n.get("stmts") and n.get("expr") is not None:
             n = n["expr"]
         elif k == "cast":
@@ -62,7 +62,56 @@ def norm_text(t):
         t = _strip_wrapped(t, "val(", "")
     # "is Some": one predicate name, whether it was read by a pattern, is_some() or `?`
     t = re.sub(r"(?<![A-Za-z_])SOME\(", "P(", t)
+    t = _slice_len(t)
     return _flatten_phi(t)
+
+
+def _slice_len(t):
+    """GE(len(S[a..B]),k) with constant a, k is GE(B,k+a): the length of a slice from a constant start is its end
+    minus that start (`part.is_empty()` for `part = s[1..end]` is `end < 2`)"""
+    head = "GE(len("
+    if not t.startswith(head) or not t.endswith(")"):
+        return t
+    # brackets inside quoted literals do not count
+    masked, q = [], False
+    for i, ch in enumerate(t):
+        if ch == "'" and (i == 0 or t[i - 1] != "\\"):
+            q = not q
+            masked.append(ch)
+        else:
+            masked.append("x" if q else ch)
+    m_ = "".join(masked)
+    d, i0, end = 0, len(head), None
+    for i in range(i0, len(m_)):
+        ch = m_[i]
+        if ch == "(":
+            d += 1
+        elif ch == ")":
+            if d == 0:
+                end = i
+                break
+            d -= 1
+    if end is None:
+        return t
+    m = re.match(r"^,(\d+)\)$", t[end + 1:])
+    if not m or m_[end - 1] != "]":
+        return t
+    d, j = 0, None
+    for i in range(end - 1, i0 - 1, -1):
+        ch = m_[i]
+        if ch == "]":
+            d += 1
+        elif ch == "[":
+            d -= 1
+            if d == 0:
+                j = i
+                break
+    if j is None:
+        return t
+    mm = re.match(r"^(\d+)\.\.(.+)$", t[j + 1:end - 1], re.S)
+    if not mm:
+        return t
+    return "GE(%s,%d)" % (mm.group(2), int(m.group(1)) + int(mm.group(1)))
 
 
 def _flatten_phi(t):
@@ -276,6 +325,7 @@ class AcceptExtract(guards.Extract):
         self.visiting = set()
         self.body = body
         self.accept = []
+        self.rejects = []
         self.stores = _Stores()     # (path condition, what the Ok value is built from)
         self.unknown = 0
         self.ctx = TRUE      # condition of the enclosing statements (kept out of the local pc to avoid blow-up)
@@ -560,6 +610,17 @@ class AcceptExtract(guards.Extract):
             p = c["pat"]
             while p.get("k") == "pref":
                 p = p["pat"]
+            so = self.split_once_parts(c["init"], env)
+            inner_ = (p.get("pats") or [None])[0] if p.get("k") == "pts" else None
+            while isinstance(inner_, dict) and inner_.get("k") == "pref":
+                inner_ = inner_.get("pat")
+            if so is not None and (p.get("path") or "").endswith("::Some") and isinstance(inner_, dict) and \
+                    inner_.get("k") == "ptup" and len(inner_.get("pats") or []) == 2:
+                # `if let Some((a, b)) = x.split_once(c)` is `if let Some(i) = x.find(c)` with a = x[..i], b = x[i+len..]
+                for j_, q_ in enumerate(inner_["pats"]):
+                    for qq_ in guards_walk_binds(q_):
+                        env[qq_["id"]] = ("text", so[1 + j_])
+                return self.atom("SOME(%s)" % so[0])
             sp = self.strip_affix(c["init"], env)
             if p.get("k") == "pts" and (p.get("path") or "").endswith("::Some") and sp is not None:
                 # `if let Some(rest) = x.strip_prefix("L")` is `x.starts_with("L")` with rest = x[len..]
@@ -582,6 +643,25 @@ class AcceptExtract(guards.Extract):
                             return f_and(self.atom("%s(%s)" % (kind, t)), self.atom("EQ(%s.%d,'%s')" % (t, j, qq.get("v"))))
                 return self.atom("%s(%s)" % (kind, t))
         return super().cond(c, env)
+
+    def split_once_parts(self, e, env):
+        """(text of the find, text of the part before, text of the part after) for x.split_once(lit) /
+        x.rsplit_once(lit), else None"""
+        x = peel(e)
+        if isinstance(x, dict) and x.get("k") == "mcall" and x.get("m") in ("split_once", "rsplit_once") \
+                and len(x.get("args") or []) == 1:
+            v = lit_val(peel(x["args"][0]))
+            if isinstance(v, str) and v:
+                base = self.value_text(x["recv"], env)
+                f = "%s.%s(%s)" % (base, "find" if x["m"] == "split_once" else "rfind", repr(v))
+                n = len(v.encode())
+                mm = re.match(r"^(.*)\[(\d+)\.\.\]$", base)
+                if mm:
+                    # parts of a tail slice, in the spelling slices of slices get
+                    b0, a0 = mm.group(1), int(mm.group(2))
+                    return f, "%s[%d..(%s+%d)]" % (b0, a0, f, a0), "%s[((%s+%d)+%d)..]" % (b0, f, n, a0)
+                return f, "%s[..%s]" % (base, f), "%s[(%s+%d)..]" % (base, f, n)
+        return None
 
     def strip_affix(self, e, env):
         """(atom text, text of the remainder) for x.strip_prefix(lit) / x.strip_suffix(lit), else None"""
@@ -661,6 +741,17 @@ class AcceptExtract(guards.Extract):
                 return
             env[pat["id"]] = ("text", self.value_text(init, env))
         elif pat.get("k") == "ptup":
+            # let (a, b) = x.split_once(L).ok_or(..)? / .unwrap(): the two parts of x around its first L
+            i0 = init
+            while isinstance(i0, dict) and (i0.get("k") == "try" or (i0.get("k") == "mcall" and i0.get("m") in (
+                    "ok_or", "ok_or_else", "unwrap", "expect", "map_err"))):
+                i0 = i0.get("e") if i0.get("k") == "try" else i0.get("recv")
+            so = self.split_once_parts(i0, env) if i0 is not init else None
+            if so is not None and len(pat.get("pats") or []) == 2:
+                for j, q in enumerate(pat["pats"]):
+                    for qq in guards_walk_binds(q):
+                        env[qq["id"]] = ("text", so[1 + j])
+                return
             t = self.value_text(init, env)
             for j, q in enumerate(pat.get("pats") or []):
                 if q.get("k") == "bind":
@@ -690,6 +781,9 @@ class AcceptExtract(guards.Extract):
             sp = self.strip_affix(x["recv"], env)
             if sp is not None:
                 return self.atom(sp[0])
+            so = self.split_once_parts(x["recv"], env)
+            if so is not None:
+                return self.atom("SOME(%s)" % so[0])
             return self.atom("SOME(%s)" % self.value_text(x["recv"], env))
         sp = self.strip_affix(x, env)
         if sp is not None:
@@ -763,6 +857,15 @@ class AcceptExtract(guards.Extract):
             self.accept.append(f_and(self.ctx, f_and(pc, self.cond(x, env))))
             return
         if self.is_err(x):
+            # which error, under which condition (U8)
+            nm = None
+            for y in walk(x):
+                pth = y.get("path") or y.get("f") or ""
+                if y.get("k") in ("struct", "call") and "ParseError::" in pth:
+                    nm = pth.rsplit("::", 1)[-1]
+                    break
+            if nm and hasattr(self, "rejects"):
+                self.rejects.append((nm, f_and(self.ctx, pc)))
             return
         if self.is_ok(x):
             self.accept.append(f_and(self.ctx, f_and(pc, self.try_atoms(x, env))))
@@ -909,6 +1012,8 @@ class AcceptExtract(guards.Extract):
             # the body
             if hasattr(self, "iter_done"):
                 self.iter_done.append(f_and(self.ctx, pc))
+            if k == "break" and hasattr(self, "breaks"):
+                self.breaks.append(f_and(self.ctx, pc))
             return None
         if k == "assign":
             pc = f_and(pc, self.try_atoms(s["r"], env))
@@ -1024,9 +1129,17 @@ class AcceptExtract(guards.Extract):
         if s.get("k") == "while":
             cond_f = sub.cond(s["cond"], e2)
         sub.iter_done = []
+        sub.breaks = []
         body_ok = sub.branch(s["body"], cond_f, e2)
         for d_ in sub.iter_done:
             body_ok = f_or(body_ok if body_ok is not None else FALSE, d_)
+        # `break` in a for / while loop: the elements after the first one that meets the condition are not looked at
+        # (`continue` under the same condition skips one element only); part of what the loop is
+        if s.get("k") in ("for", "while") and sub.breaks:
+            bf_ = FALSE
+            for x_ in sub.breaks:
+                bf_ = f_or(bf_, x_)
+            it_text = "%s;STOP(%s)" % (it_text, guards.canon(bf_) if len(atoms_of(bf_)) <= 10 else structural(bf_))
         for pc_, rep_ in sub.stores:
             self.stores.append((f_and(self.ctx, pc), "loop[%s]{%s => %s}" % (
                 it_text, guards.canon(pc_) if len(atoms_of(pc_)) <= 10 else structural(pc_), rep_)))
@@ -1163,8 +1276,35 @@ def equivalent(f, g):
     return True, None
 
 
+def rule_helpers(F):
+    """value helpers of the validation rules: crate-local functions of a message type that a validate_* function
+    calls directly and that compute a value (codes found in a narrative, a currency, a sum) rather than a verdict"""
+    key = id(F)
+    if key in _RH:
+        return _RH[key]
+    hs = set()
+    for b in F.bodies:
+        if "body" not in b or b.get("exp") or not b["path"].startswith("messages::") or \
+                not b["name"].startswith("validate_"):
+            continue
+        for n in walk(b["body"]):
+            if n.get("k") in ("call", "mcall"):
+                c = callee(n)
+                hb = F.body_by_path.get(c)
+                if hb is not None and c.startswith("messages::") and "body" in hb and not hb.get("exp") and \
+                        not hb["name"].startswith(("validate_", "parse_")) and (hb.get("output") or "") not in ("bool", "()") \
+                        and not (hb.get("output") or "").startswith("std::vec::Vec<errors::"):
+                    hs.add(c)
+    _RH[key] = hs
+    return hs
+
+
+_RH = {}
+
+
 def targets(F):
     out = []
+    rh = rule_helpers(F)
     for b in F.bodies:
         if "body" not in b or b.get("exp") or b["kind"] not in ("Fn", "AssocFn"):
             continue
@@ -1174,7 +1314,8 @@ def targets(F):
         opt = outp.startswith("std::option::Option<")
         is_field_parse = res and (b.get("impl_trait") or "").endswith("traits::SwiftField") and b["name"] in ("parse", "parse_with_variant")
         is_util = res and p.startswith(("fields::swift_utils::", "fields::field_utils::"))
-        is_hdr = res and p.startswith("headers::") and b["name"] == "parse"
+        is_hdr = (res and p.startswith("headers::") and b["name"] == "parse") or \
+            ((res or opt) and p.startswith("headers::") and b["name"].startswith("parse_") and not b.get("impl_trait"))
         is_parser = (res or opt or outp == "bool") and p.startswith(("parser::message_parser::", "parser::field_extractor::",
                                                                        "parser::utils::", "parser::generated::",
                                                                        "parser::swift_parser::SwiftParser::extract_block",
@@ -1190,7 +1331,7 @@ def targets(F):
                                "parser::swift_parser::parse_sequence", "parser::swift_parser::reconstruct_block4"))
         is_msg_helper = res and p.startswith("messages::") and not b.get("impl_trait") and \
             b["name"].startswith("parse_") and b["name"] != "parse_from_block4"
-        if is_field_parse or is_util or is_hdr or is_parser or is_pred or is_tok or is_msg_helper:
+        if is_field_parse or is_util or is_hdr or is_parser or is_pred or is_tok or is_msg_helper or p in rh:
             out.append(b)
     return out
 
@@ -1235,7 +1376,14 @@ def reference_vocabulary():
     if os.path.exists(st):
         for p, sig in json.load(open(st))["functions"].items():
             texts.extend(sig)
-    _VOCAB.append(decide.vocabulary(texts))
+    v = decide.vocabulary(texts)
+    # the reviewed functions themselves: a call to one of them is a call to known code, not to a fresh helper
+    if os.path.exists(SPEC):
+        for p in json.load(open(SPEC))["functions"]:
+            nm = re.sub(r">$", "", p).rsplit("::", 1)[-1]
+            if re.match(r"^[a-z_][a-z0-9_]*$", nm) and nm not in ("parse", "new", "default"):
+                v.add(nm)
+    _VOCAB.append(v)
     return _VOCAB[0]
 
 
@@ -1470,6 +1618,25 @@ def u7(rep, F, flt=None):
                                 "where the reference has `%s`" % (path, " ".join(da_)[:200], " ".join(db_)[:200]),
                                 b["file"], b["line"]))
                 continue
+            # the reference delivers one unconditional value T; the current code delivers `phi(T|X)`: T on one path
+            # and, after a conditional re-assignment, a definitely different X on another
+            if len(va_) == 1 and len(vo_) == 1 and "phi(" not in vo_[0] and \
+                    not any(decide.opaque(x, vocab) for x in rest):
+                ex = decide.phi_expansions(va_[0])
+                same = [alt for x, alt in (ex or []) if x == vo_[0]]
+                if same:
+                    # the re-assigned value usually mentions the first one: compare with it as one token
+                    t0 = same[0]
+                    other = [(alt.replace(t0, "firstvalue"), "firstvalue") for x, alt in ex if x != vo_[0]]
+                    other = [o_ for o_ in other if decide.texts_definitely_differ(o_[0], o_[1], vocab | {"firstvalue"})]
+                    if other:
+                        da_, db_ = decide.differing_tokens(other[0][0], other[0][1])
+                        rep.add(Finding("U7", path, "store-changed",
+                                        "%s now re-assigns what it delivers on one path: the value may be `%s` where "
+                                        "the reference always delivers `%s`" % (path, " ".join(da_)[:200],
+                                                                                " ".join(db_)[:120] or "the first value"),
+                                        b["file"], b["line"]))
+                        continue
             if any(decide.opaque(x, vocab) for x in (pa ^ po)):
                 r["undecided"] = r.get("undecided", 0) + 1
                 rep.notes.append("U7: %s: the delivered value differs from the reference only in terms the extractor "
@@ -1502,4 +1669,74 @@ def u7(rep, F, flt=None):
                 msg = ("%s now delivers a different value than the reference: current `%s` vs reference `%s`"
                        % (path, va[:300], vo[:300]))
             rep.add(Finding("U7", path, "store-changed", msg, b["file"], b["line"]))
+    return r
+
+
+
+# ---------------------------------------------------------------------------
+# U8: which error, under which condition
+
+REJECTS = os.path.join(os.path.dirname(SPEC), "reject_formulas.json")
+U8_RX = re.compile(r"^parser::message_parser::")
+
+
+def extract_rejects(F):
+    res = {}
+    for b in targets(F):
+        if not U8_RX.search(b["path"]):
+            continue
+        ex = AcceptExtract(F, b)
+        try:
+            ex.run_accept()
+        except RecursionError:
+            continue
+        by = {}
+        for nm, f in ex.rejects:
+            by[nm] = f_or(by.get(nm, FALSE), f)
+        if by:
+            res[b["path"]] = (by, b)
+    return res
+
+
+def u8(rep, F):
+    r = rep.rule("U8", "which error, when: for every MessageParser primitive and every ParseError variant it "
+                       "constructs itself, the condition under which that variant is returned (missing mandatory "
+                       "field, duplicate, invalid format ..) is logically equivalent to the reviewed reference",
+                 floor=3)
+    if not os.path.exists(REJECTS):
+        rep.fail_closed("U8: spec/reject_formulas.json missing")
+        return r
+    spec = json.load(open(REJECTS))["functions"]
+    cur = extract_rejects(F)
+    vocab = reference_vocabulary()
+    for path in sorted(set(spec) | set(cur)):
+        if path not in cur or path not in spec:
+            # errors built somewhere the extractor does not follow (a helper, a closure): not decided, but counted
+            r["instances"] += len(spec.get(path) or [1])
+            r["undecided"] = r.get("undecided", 0) + 1
+            rep.notes.append("U8: %s: %s" % (path, "new (not in the reference)" if path in cur else
+                                             "its error exits are no longer visible to the extractor: undecided"))
+            continue
+        by, b = cur[path]
+        for nm in sorted(set(by) | set(spec[path])):
+            r["instances"] += 1
+            f = by.get(nm, FALSE)
+            g = guards.from_json(spec[path][nm]["f"]) if nm in spec[path] else FALSE
+            if structural(f) == structural(g):
+                continue
+            rw, who = decide.rewritten(F, path)
+            if rw:
+                r["undecided"] = r.get("undecided", 0) + 1
+                rep.notes.append("U8: %s restructured (%d units): undecided" % (path, rw))
+                continue
+            verdict, info = decide.definite_difference(f, g, vocab)
+            if verdict == "different":
+                rep.add(Finding("U8", path, "reject:%s" % nm,
+                                "%s now returns ParseError::%s under a different condition than the reference (e.g. "
+                                "when %s): the error a caller sees for the same defect changed"
+                                % (path, nm, ", ".join("%s=%s" % (k_[:60], v_) for k_, v_ in sorted(info.items())[:4])),
+                                b["file"], b["line"]))
+            elif verdict == "undecided":
+                r["undecided"] = r.get("undecided", 0) + 1
+                rep.notes.append("U8: %s / %s differs from the reference only in unresolved terms: undecided" % (path, nm))
     return r
